@@ -368,16 +368,57 @@ def _arg_matches_field(arg, f, kind):
 
 def check_identity_handler(ctx, rule, model, mapper, n: NodeClass, mem,
                            allow_zero_cse=True):
-    """Rule F for one (mapper, node class, handler)."""
+    """Rule F for one (mapper, node class, handler): the interpretive judge
+    (pv/idjudge.py) first; the structural reading of the paths adds detail and
+    decides alone where the judge cannot interpret the handler."""
     fn = mem.node
     kinds = child_kinds(n)
     tag = f"{rule}/{mapper.name}/{fn.name}/{n.name}"
+    jwit = None
+    try:
+        from . import idjudge
+        jwit, jn = idjudge.judge(model, mapper, n, model.inlined(fn), kinds,
+                                 allow_zero_result=allow_zero_cse and
+                                 n.name == "CommonSubexpression")
+    except AnalysisError as e:
+        ctx.extra.setdefault("judge_unavailable:identity-handlers", []).append(
+            f"{mapper.name}.{fn.name}/{n.name}: {str(e)[:80]}")
+    if jwit is not None:
+        ctx.ob(f"{rule}0/{mapper.name}/{fn.name}/{n.name}/rebuild-semantics",
+               not jwit, where(mem),
+               f"{hname(mem)} interpreted on an abstract {n.name}: unchanged "
+               "children give back the node itself; changed ones a node of the "
+               "same class with the mapped children in place; each child mapped "
+               "once, extra arguments forwarded" if not jwit else
+               f"{hname(mem)} (as {n.name}): " + "; ".join(jwit[:2]),
+               nontrivial=bool(jwit))
+    mark = len(ctx.obs)
     try:
         pss = handler_summaries(model, n, fn)
     except AnalysisError as e:
+        if jwit is not None and not jwit:
+            return []
         raise AnalysisError(f"{where(mem)} {hname(mem)}: {e}") from e
     if not pss:
+        if jwit is not None and not jwit:
+            return []
         raise AnalysisError(f"{where(mem)} {hname(mem)}: no feasible path")
+    try:
+        return _check_identity_paths(ctx, tag, model, n, mem, pss, kinds,
+                                     allow_zero_cse)
+    except AnalysisError:
+        if jwit is not None and not jwit:
+            return []
+        raise
+    finally:
+        if jwit is not None and not jwit:
+            ctx.withdraw_failures_since(
+                mark, "decided by interpreting the handler on an abstract node",
+                tag + "/")
+
+
+def _check_identity_paths(ctx, tag, model, n, mem, pss, kinds, allow_zero_cse):
+    fn = mem.node
     results = []
     for i, ps in enumerate(pss):
         results.append(_check_identity_path(ctx, tag, model, n, mem, ps, kinds, i,
@@ -558,6 +599,35 @@ def check_walk_handler(ctx, rule, model, mapper, n: NodeClass, mem):
     fn = mem.node
     kinds = child_kinds(n)
     tag = f"{rule}/{mapper.name}/{fn.name}/{n.name}"
+    jwit = None
+    try:
+        from . import idjudge
+        jwit, _ = idjudge.judge_walk(model, mapper, n, model.inlined(fn), kinds)
+    except AnalysisError as e:
+        ctx.extra.setdefault("judge_unavailable:walk-handlers", []).append(
+            f"{mapper.name}.{fn.name}/{n.name}: {str(e)[:80]}")
+    if jwit is not None:
+        ctx.ob(f"{rule}0/{mapper.name}/{fn.name}/{n.name}/walk-protocol",
+               not jwit, where(mem),
+               f"{hname(mem)} interpreted on an abstract {n.name}: visit first, "
+               "nothing more when it answers false, else every child once and "
+               "post_visit last; extra arguments forwarded" if not jwit else
+               f"{hname(mem)} (as {n.name}): " + "; ".join(jwit[:2]),
+               nontrivial=bool(jwit))
+    mark = len(ctx.obs)
+    try:
+        _check_walk_structural(ctx, tag, model, mapper, n, mem, kinds)
+    except AnalysisError:
+        if jwit is None or jwit:
+            raise
+    if jwit is not None and not jwit:
+        ctx.withdraw_failures_since(
+            mark, "decided by interpreting the handler on an abstract node",
+            tag + "/")
+
+
+def _check_walk_structural(ctx, tag, model, mapper, n, mem, kinds):
+    fn = mem.node
     pss = handler_summaries(model, n, fn)
     need_split = False
     for ps in pss:
@@ -718,6 +788,38 @@ def check_combine_handler(ctx, rule, model, mapper, n: NodeClass, mem,
     fn = mem.node
     kinds = child_kinds(n)
     tag = f"{rule}/{mapper.name}/{fn.name}/{n.name}"
+    jwit = None
+    try:
+        from . import idjudge
+        jwit, _ = idjudge.judge_combine(model, mapper, n, model.inlined(fn),
+                                        kinds, combine_names)
+    except AnalysisError as e:
+        ctx.extra.setdefault("judge_unavailable:combine-handlers", []).append(
+            f"{mapper.name}.{fn.name}/{n.name}: {str(e)[:80]}")
+    if jwit is not None:
+        ctx.ob(f"{rule}0/{mapper.name}/{fn.name}/{n.name}/folds-every-child",
+               not jwit, where(mem),
+               f"{hname(mem)} interpreted on an abstract {n.name}: the result "
+               "folds in the recursion result of every child once, extra "
+               "arguments forwarded" if not jwit else
+               f"{hname(mem)} (as {n.name}): " + "; ".join(jwit[:2]),
+               nontrivial=bool(jwit))
+    mark = len(ctx.obs)
+    try:
+        _check_combine_paths(ctx, tag, model, n, mem, kinds, allow_none_filter,
+                             combine_names)
+    except AnalysisError:
+        if jwit is None or jwit:
+            raise
+    if jwit is not None and not jwit:
+        ctx.withdraw_failures_since(
+            mark, "decided by interpreting the handler on an abstract node",
+            tag + "/")
+
+
+def _check_combine_paths(ctx, tag, model, n, mem, kinds, allow_none_filter,
+                         combine_names):
+    fn = mem.node
     pss = handler_summaries(model, n, fn)
     for i, ps in enumerate(pss):
         if ps.term == "raise":
